@@ -282,7 +282,22 @@ fn case(m: &mut Mon, r: &mut Rng, _idx: u64) {
         12 | 13 => {
             // pow: result bounded to ~ limit bits
             let limit_bits: u64 = if m.thorough() { 64 * 6000 } else { 64 * 1200 };
-            let base: Vec<u64> = match r.below(6) {
+            let mut forced_exp: Option<usize> = None;
+            let base: Vec<u64> = match r.below(7) {
+                6 => {
+                    // near-root bases: b = floor(root_e(k * 2^(64 j))) + {0, 1}, so that b^e (and the partial products
+                    // on the way) has long runs of zero / all-ones words just below its top: carries that skip words
+                    let e = 2 + r.below(5) as u32;
+                    let jmax = if r.chance(1, 4) { 40 } else { 2 * e as u64 + 2 };
+                    let j = 1 + r.below(jmax);
+                    let kmax = if r.bool() { 8 } else { 1 << 20 };
+                    let t = BigUint::from(1 + r.below(kmax)) << (64 * j as usize);
+                    let b = t.nth_root(e) + r.below(2);
+                    if !r.chance(1, 4) {
+                        forced_exp = Some(e as usize);
+                    }
+                    dvh::conv::limbs_of_nat(&b)
+                }
                 0 => vec![r.below(12)],
                 1 => vec![r.word()],
                 2 => vec![r.u64(), r.word()],
@@ -305,6 +320,7 @@ fn case(m: &mut Mon, r: &mut Rng, _idx: u64) {
                 }
                 _ => r.below(emax + 1),
             } as usize;
+            let exp = forced_exp.unwrap_or(exp);
             let want = Pow::pow(&nat(&base), exp);
             let x = ubig(&base);
             let xi = ibig(na, &base);
